@@ -127,17 +127,39 @@ def compare(lib, a, b, tol64=1e-10, tol32=0.0, int_exact=True):
 _TAG = re.compile(r"<(/?)([A-Za-z_][\w]*)((?:\s+[\w:]+=\"[^\"]*\")*)\s*(/?)>")
 
 
-def canon_text(text):
-    """Sibling-order-free canonical form of an XML text: nested tuples with sorted children."""
+def _num9(v):
+    out = []
+    for tok in v.split():
+        try:
+            f = float(tok)
+            f = round(f, 10)
+            out.append("0" if f == 0 else "%.9g" % f)
+        except ValueError:
+            out.append(tok)
+    return " ".join(out)
+
+
+def text_cmp(t1, t2):
+    """'equal' | 'numeric-noise' (same tree, numbers equal to 9 significant digits) |
+    'reordered' (same up to sibling order and numeric noise) | 'different'."""
+    if t1 == t2:
+        return "equal"
     import xml.etree.ElementTree as ET
     try:
-        root = ET.fromstring(text)
+        r1, r2 = ET.fromstring(t1), ET.fromstring(t2)
     except ET.ParseError:
-        return None
+        return "different"
 
-    def rec(e):
-        return (e.tag, tuple(sorted(e.attrib.items())), tuple(sorted(rec(c) for c in e)))
-    return rec(root)
+    def rec(e, sort):
+        kids = [rec(c, sort) for c in e]
+        if sort:
+            kids.sort()
+        return (e.tag, tuple(sorted((k, _num9(v)) for k, v in e.attrib.items())), tuple(kids))
+    if rec(r1, False) == rec(r2, False):
+        return "numeric-noise"
+    if rec(r1, True) == rec(r2, True):
+        return "reordered"
+    return "different"
 
 
 def tmpdir():
@@ -145,3 +167,122 @@ def tmpdir():
     p = os.path.join(d, "verif_c32_%d" % os.getpid())
     os.makedirs(p, exist_ok=True)
     return p
+
+
+# ------------------------------------------------------------------ crash-tolerant sharding
+
+
+def rpmap(ctx, fn, items, nproc=None, init=None, on_death=None, label=None):
+    """Like core.pmap, but a worker that dies (signal / exit) does not take the pool down: the item it
+    was evaluating is reported through on_death(ctx, item, status) (default: a 'crash' violation keyed
+    by label(item)) and the worker's remaining items are re-run in a fresh process without it.
+    fn(state, part, item) evaluates one item; state = init() once per process.  The seed only rotates
+    which worker gets which stride."""
+    import pickle
+    import select
+    import struct
+
+    from .. import core
+    items = list(items)
+    if not items:
+        return
+    nproc = min(nproc or core.NCPU, len(items))
+    rot = ctx.seed % nproc
+    queues = [list(range((w + rot) % nproc, len(items), nproc)) for w in range(nproc)]
+    live = {}
+
+    def spawn(idxs):
+        pr, pw = os.pipe()
+        rr, rw = os.pipe()
+        pid = os.fork()
+        if pid == 0:
+          try:
+            os.close(pr)
+            os.close(rr)
+            try:
+                part = core.Part()
+                state = init() if init else None
+                for i in idxs:
+                    os.write(pw, struct.pack("i", i))
+                    fn(state, part, items[i])
+                part["nontrivial"] = list(part["nontrivial"])
+                part["outcomes"] = list(part["outcomes"])
+                data = pickle.dumps(dict(part))
+            except BaseException:
+                import traceback
+                data = pickle.dumps({"_exc": traceback.format_exc()})
+            with os.fdopen(rw, "wb") as fh:
+                fh.write(data)
+          finally:
+            os._exit(0)
+        os.close(pw)
+        os.close(rw)
+        live[pid] = dict(pr=pr, rr=rr, idxs=idxs, last=None, buf=b"")
+
+    for q in queues:
+        if q:
+            spawn(q)
+    while live:
+        fds = {}
+        for pid, st in live.items():
+            fds[st["pr"]] = (pid, "p")
+            fds[st["rr"]] = (pid, "r")
+        ready, _, _ = select.select(list(fds), [], [], 5.0)
+        for fd in ready:
+            pid, kind = fds[fd]
+            st = live.get(pid)
+            if st is None:
+                continue
+            if kind == "p":
+                d = os.read(fd, 4096)
+                if d:
+                    st["last"] = struct.unpack("i", d[-4:])[0] if len(d) >= 4 else st["last"]
+            else:
+                d = os.read(fd, 1 << 20)
+                if d:
+                    st["buf"] += d
+                else:
+                    # result pipe closed: child finished or died
+                    _, status = os.waitpid(pid, 0)
+                    # drain progress pipe
+                    while True:
+                        r2, _, _ = select.select([st["pr"]], [], [], 0)
+                        if not r2:
+                            break
+                        d2 = os.read(st["pr"], 4096)
+                        if not d2:
+                            break
+                        if len(d2) >= 4:
+                            st["last"] = struct.unpack("i", d2[-4:])[0]
+                    os.close(st["pr"])
+                    os.close(st["rr"])
+                    del live[pid]
+                    if st["buf"]:
+                        res = pickle.loads(st["buf"])
+                        if "_exc" in res:
+                            raise RuntimeError("worker failed:\n" + res["_exc"])
+                        res["nontrivial"] = set(res["nontrivial"])
+                        res["outcomes"] = set(res["outcomes"])
+                        ex = res.get("extra", {})
+                        for k in list(ex):
+                            if isinstance(ex[k], list):
+                                ctx.extra.setdefault(k, [])
+                                ctx.extra[k] = list(ctx.extra[k]) + ex.pop(k)
+                            elif k.startswith("max_"):
+                                ctx.extra[k] = max(ctx.extra.get(k, 0.0), ex.pop(k))
+                        ctx.merge(res)
+                    else:
+                        culprit = st["last"]
+                        if culprit is None:
+                            raise RuntimeError("worker died before its first item (status %d)" % status)
+                        item = items[culprit]
+                        if on_death:
+                            on_death(ctx, item, status)
+                        else:
+                            name = label(item) if label else repr(core.jsonable(item))[:200]
+                            ctx.violation("crash: " + name, "worker process died (wait status %d) while evaluating %s" % (status, name),
+                                          {"item": core.jsonable(item), "status": status})
+                        rest = [i for i in st["idxs"] if i != culprit]
+                        ctx.extra["worker_restarts"] = ctx.extra.get("worker_restarts", 0) + 1
+                        if rest:
+                            spawn(rest)
